@@ -71,13 +71,13 @@ theorem encodeParams_missing (eop : Bool) (values : List (String × PVal)) :
       obtain ⟨qn, qb, qbit, qk⟩ := q
       simp only [encodeParams]
       have key : ∀ s1 : EncState, ∃ e, ((match Param.mk qn qb qbit qk with
-            | .mk name bytePos bitPos (.lengthKey dop) => encodeKeyPlaceholder name bytePos bitPos dop (lookup name values)
+            | .mk name bytePos bitPos (.lengthKey dop) => encodeKeyPlaceholder name bytePos bitPos dop (lookupV name values)
             | .mk name _ _ kind => do
               let required : Bool := match kind with
                 | .value _ none => true
                 | _ => false
               if required && (lookup name values).isNone then odxraise .encode
-              encodeParam fuel (.mk qn qb qbit qk) (lookup name values) : EncM Unit) >>= fun _ =>
+              encodeParam fuel (.mk qn qb qbit qk) (lookupV name values) : EncM Unit) >>= fun _ =>
             encodeParams eop values fuel rest) s1 true = .error e := by
         intro s1
         by_cases hq : p = .mk qn qb qbit qk
